@@ -258,6 +258,9 @@ func (c *Client) validateVirtualChannelFundingProposal(
 		return errors.New("virtual channel flag not set")
 	case len(prop.Initial.State.Locked) > 0:
 		return errors.New("cannot have locked funds")
+	case prop.Initial.State.Valid() != nil || prop.Initial.State.NumParts() != len(prop.Initial.Params.Parts):
+		// The balances are indexed by participant below.
+		return errors.New("state does not have one balance per participant")
 	}
 
 	// Validate signatures.
